@@ -716,7 +716,9 @@ def convert_resizebilinear_to_depthwise_convolutions(op, half_pixel_centers=True
         elem_size = 2 if ofm.dtype == DataType.int16 else 1
 
         n, h, w, c = ifm.shape
-        _, _, ow, _ = ofm.shape
+        # The OFM tensor can be the (differently shaped) output of a bypassed memory only operator, e.g. a Reshape
+        final_ofm_shape = op.ofm_shapes[0]
+        ow = final_ofm_shape.width
 
         intermediate_tens = Tensor(ifm.shape, ifm.dtype, "intermediate_tens")
         intermediate_tens.quantization = op.outputs[0].quantization.clone()
@@ -791,13 +793,14 @@ def convert_resizebilinear_to_depthwise_convolutions(op, half_pixel_centers=True
                 fixup_bias_tensors(dw_conv, None, None, dtype=DataType.int32)
 
                 dw_conv.set_ifm_ofm_shapes()
+                dw_conv.ofm_shapes[0] = final_ofm_shape
                 DebugDatabase.add_optimised(op, dw_conv)
 
                 dw_conv = dw_conv.clone(f"_{index}")
         return op
 
     _, input_height, input_width, _ = op.ifm.shape
-    _, output_height, output_width, _ = op.ofm.shape
+    output_height, output_width = op.ofm_shapes[0].height, op.ofm_shapes[0].width
 
     kernels = _compute_kernels(input_height, input_width, output_height, output_width)
     op = _build_convolutions(op, kernels)
